@@ -658,14 +658,22 @@ theorem di_queries_spec {s : DiSt} (h : WFd s) (sought : List PyId) (e n : PyId)
 
 /-! ### non-vacuity: a concrete history reaches a non-trivial state on which everything evaluates -/
 
-private def demo : HG :=
-  ((C01.run HG.empty
-    [ .addNodesFrom [(.int 3, none), (.int 1, none), (.int 2, none), (.int 9, none)] [],
-      .addEdge [.int 3, .int 1] none [("w", .sc (.int 2))],
-      .addEdge [.int 2] none [],
-      .addEdge [.int 1, .int 3] none [("color", .sc (.str "r"))],
-      .addEdge [] none [],
-      .addEdge [.int 1, .int 2, .int 3] (some (.str "big")) [] ]).getD HG.empty)
+private def demoOps : List Op :=
+  [ .addNodesFrom [(.int 3, none), (.int 1, none), (.int 2, none), (.int 9, none)] [],
+    .addEdge [.int 3, .int 1] none [("w", .sc (.int 2))],
+    .addEdge [.int 2] none [],
+    .addEdge [.int 1, .int 3] none [("color", .sc (.str "r"))],
+    .addEdge [] none [],
+    .addEdge [.int 1, .int 2, .int 3] (some (.str "big")) [] ]
+
+private def demo : HG := (C01.run HG.empty demoOps).getD HG.empty
+
+/-- the demo state is reached by a history, hence satisfies the hypothesis `WF` of the theorems -/
+example : WF demo := by
+  have hs : (C01.run HG.empty demoOps).isSome = true := by decide
+  obtain ⟨s', hr⟩ := Option.isSome_iff_exists.1 hs
+  have : demo = s' := by simp [demo, hr]
+  rw [this]; exact (C01.C01_history _ _ _ empty_inv hr).1
 
 example : demo.nodes = [.int 3, .int 1, .int 2, .int 9] := by decide
 example : demo.edges = [.int 0, .int 1, .int 2, .int 3, .str "big"] := by decide
@@ -696,6 +704,9 @@ private def ddemo : DiSt :=
     membOut := fun n => if n = .int 1 then [.int 0] else if n = .int 2 then [.int 0] else if n = .int 3 then [.int 1] else [],
     membIn := fun n => if n = .int 3 then [.int 0] else if n = .int 2 then [.int 0] else if n = .int 1 then [.int 1] else [],
     nattr := fun _ => [], eattr := fun _ => [] }
+
+/-- the directed demo state satisfies the hypothesis `WFd` of the directed theorems -/
+example : WFd ddemo := by constructor <;> decide
 
 example : ddemo.nodes.map (ddemo.outDegree none) = [1, 1, 1] ∧ ddemo.edges.map (ddemo.tailSize none) = [2, 1] := by decide
 example : ddemo.nodes.map (ddemo.degree none) = [1, 2, 2] ∧ ddemo.edges.map (ddemo.size none) = [3, 2] := by decide
